@@ -304,6 +304,57 @@ def k_ext(seq, final, close_in_timer=False):
     cover("ext")
 
 
+def k_ext_double(when):
+    """external dispatcher; ONE loss is reported twice - the read side sees the end of stream and, before the reconnect timer fires, the
+    application writes to the dead connection, whose failure is reported through the write path as well.  However many timers that
+    leaves pending: never more than one live transport at a time, messages flow again, every transport is closed at the end."""
+    interval = sx.sym_real("interval")
+    sx.assume(sx.And(interval > 0, interval <= 20))
+    frac = {"early": Fraction(1, 4), "late": Fraction(3, 4)}[when]
+    first = {"script": [(1, server_frame(1, 2, b"A")), (1, "EOF")], "on_frame_bytes": _answer_ping}
+    nxt = {"script": [(1, server_frame(1, 2, b"B")), (interval * 3, close_frame(1000))], "on_frame_bytes": _answer_ping}
+    run = AppRun([first, nxt], callbacks=["on_open", "on_message", "on_error", "on_close", "on_reconnect"], step_budget=3000)
+    rel = FakeRel(run.k)
+    peak = {"socks": 0}
+
+    def watch(_n=None):
+        peak["socks"] = max(peak["socks"], len(run.net.open_sockets()))
+    run.k.on_yield = watch
+
+    def late_write():
+        try:
+            run.app.send(b"x", 2)
+        except (sx.Control, sx.ConcreteFailure, sx.ReplayMismatch):
+            raise
+        except Exception:
+            pass  # the application is told that the connection is gone; fine
+    try:
+        try:
+            rel.timeout(2 + interval * frac, late_write)
+            run.app.run_forever(dispatcher=rel, reconnect=interval)
+            rel.dispatch(run.k.t0 + 400)
+            watch()
+        except simnet.KernelStuck:
+            sx.require(False, "external dispatcher loop blocked forever", when=when)
+            return
+        except (sx.Control, sx.ConcreteFailure, sx.ReplayMismatch):
+            raise
+        except Exception as e:
+            sx.require(False, "external-dispatcher run raised %s" % type(e).__name__, when=when)
+            return
+    finally:
+        run.alive = [t.is_alive() for t in run.k.live_threads]
+        run.k.shutdown()
+        simnet.uninstall()
+    sx.require(peak["socks"] <= 1, "never more than one live transport (a loss reported by the read side and by a failed write)", got=peak["socks"], when=when)
+    msgs = [t[2][0] for t in run.of("on_message")]
+    sx.require(len(msgs) >= 2 and msgs[0] == b"A" and all(m == b"B" for m in msgs[1:]), "messages flow again after the reconnection", got=str(msgs), when=when)
+    sx.require(all(s.closed for s in run.net.socks), "all transports closed at the end", when=when, n=len(run.net.socks))
+    names = run.names()
+    sx.require(names.count("on_close") <= 1 and (names.count("on_close") == 0 or names[-1] == "on_close"), "no on_close between reconnections", when=when)
+    cover("ext-double")
+
+
 def obligations(tier):
     thorough = tier == "thorough"
     seqs = []
@@ -342,6 +393,10 @@ def obligations(tier):
         Obligation("K-close-sleep", k_close_sleep, [dict(lost=l, when=w) for l in ("eof", "refused", "rejected", "reset") for w in ("early", "late")],
                    bounds="first connection lost / refused / rejected; close() from a second thread at 1/4 and 3/4 of the reconnect sleep (interval a solver real)",
                    must_cover=["close-sleep"], step_budget=100000, kernel=["DispatcherBase.reconnect", "WebSocketApp.run_forever (reconnect loop)", "WebSocketApp.close"]),
+        Obligation("K-ext-double", k_ext_double, [dict(when=w) for w in ("early", "late")],
+                   bounds="external dispatcher; end of stream, and a write by the application at 1/4 / 3/4 of the reconnect interval (solver real) on the dead "
+                          "connection, so that the same loss is reported through the read path and the write path", must_cover=["ext-double"], step_budget=100000,
+                   kernel=["WrappedDispatcher.send / buffwrite", "handleDisconnect", "WrappedDispatcher.reconnect", "setSock"]),
         Obligation("K-ext", k_ext, ext, bounds="external dispatcher: all sequences of <=2 failed/lost connections over {refused, rejected, end of stream}",
                    must_cover=["ext"], budget_s=1200, step_budget=100000, required=True,
                    kernel=["WrappedDispatcher.read/timeout/reconnect/send", "handleDisconnect", "closed", "setSock"]),
